@@ -700,14 +700,3 @@ Proof.
   cbn [rp_obj o_bases o_cps o_dim o_rat]. rewrite upd_upd_same. symmetry. rewrite (obj_eta o) at 1. reflexivity.
 Qed.
 
-Print Assumptions snap1_affine.
-Print Assumptions normalise_affine.
-Print Assumptions reparam_dir_eval_scaled.
-Print Assumptions reparam_curve_eval.
-Print Assumptions reparam_dir_eval.
-Print Assumptions reparam_dir_domain.
-Print Assumptions reparam_dir_wf.
-Print Assumptions reparam_dir_wf_scaled.
-Print Assumptions reparam_dir_inverse.
-Print Assumptions reparam_inverse.
-Print Assumptions reparam_dir_total.
